@@ -158,6 +158,11 @@ pub fn structure_of(e: &Elem) -> SNode {
 }
 
 pub fn structure_from_events(bytes: &[u8]) -> Result<SNode, String> {
+    structure_from_events_opt(bytes, false)
+}
+
+/// `allow_open`: elements still open when the input ends are taken as they stand
+pub fn structure_from_events_opt(bytes: &[u8], allow_open: bool) -> Result<SNode, String> {
     let mut reader = Reader::from_reader(bytes);
     let mut buf = Vec::new();
     let mut stack: Vec<SNode> = vec![SNode { name: "#doc".into(), attrs: vec![], text: false, kids: vec![] }];
@@ -187,6 +192,10 @@ pub fn structure_from_events(bytes: &[u8]) -> Result<SNode, String> {
             Ok(_) => {}
         }
         buf.clear();
+    }
+    while allow_open && stack.len() > 1 {
+        let n = stack.pop().unwrap();
+        stack.last_mut().unwrap().kids.push(n);
     }
     if stack.len() != 1 {
         return Err("unclosed elements at EOF".into());
